@@ -525,7 +525,12 @@ func (g *gen) column(x0, x1, yTop, yBot float64, col int) {
 				if i == n-1 {
 					max = rapid.IntRange(1, 5).Draw(g.t, "rtlLast")
 				}
-				g.setLine(g.words(x1-x0, g.size, max, Hebrew), x0, x1, y, g.size, "right", RoleRTL, col, false)
+				ws := g.words(x1-x0, g.size, max, Hebrew)
+				if len(ws) >= 3 && g.pct("rtlEndsInLatin", 35) {
+					// a right-to-left line whose last word (at the reading end, i.e. leftmost) is a Latin name
+					ws[len(ws)-1] = g.words(x1-x0, g.size, 1, Lower)[0]
+				}
+				g.setLine(ws, x0, x1, y, g.size, "right", RoleRTL, col, false)
 				y -= g.lead - g.size
 			}
 		case "list":
